@@ -76,6 +76,8 @@ def plant(D):
         for s in sigs[:1]:
             # an orphan that is a COPY of one of the module's own signals (it still looks like the original)
             yield mut(lambda D2, m2, i2, c2, s=s: c2.__setitem__("t", {"k": "fsig", "n": s["n"], "w": s["w"], "owner": "copyof"}), "foreign_or_orphan_signal")
+            # a signal the module used to own, displaced by binding its name again
+            yield mut(lambda D2, m2, i2, c2, s=s: c2.__setitem__("t", {"k": "fsig", "n": s["n"], "w": s["w"], "owner": "displaced"}), "foreign_or_orphan_signal")
         if inst["of"]["k"] == "ext" and inst["kind"] == "inst" and ci == 0:
             # the external device got one more port after it was made; the instance does not connect it
             def lateport(D2, m2, i2, c2):
